@@ -6,7 +6,8 @@ every access; accesses through symbolic offsets and into allocations of symbolic
 the object under the path condition?).  Claim per path: the function either returns meshes whose local ids are in range and
 whose coordinates are copies of existing points, or throws an exception derived from std::exception; no access outside an
 object, no unbounded loop.  Every memory report is replayed natively (valgrind memcheck as replay oracle) at the solver's model.
-Byte-level parsing (regex, getline, tinyxml2, strtod) is not encoded: see DESIGN.md."""
+Second part: the parameter reader on files with one empty element <tag></tag> (every tag in turn; tinyxml2 navigation as environment table, see C18).
+Byte-level parsing (regex, getline, tinyxml2 internals, strtod) is not encoded: see DESIGN.md."""
 import os
 import sys
 import time
@@ -157,10 +158,72 @@ def main(chk):
             else:
                 chk.fail_closed.append('memory report not confirmed natively: %s %r' % (rep['msg'], split_lists(iin)))
     native.close()
+    empty_elements_part(chk, quick)
     chk.finish(level='other', explanation=(
         'mesh_reader::get_cell_mesh runs from the IR on connectivity lists whose entries are all symbolic (0..2^31-1), for every list length up to the bound; z3 decides path feasibility, whether a symbolic offset can leave its object, '
         'and whether accesses fit allocations of symbolic size. Every path must end in a return with in-range local ids and copied existing points or in an exception derived from std::exception, without any access outside a live object. '
         'Memory reports are replayed natively under valgrind at the solver model.'))
+
+def empty_elements_part(chk, quick):
+    """parameter file with one empty element <tag></tag> (tinyxml2: GetText() == nullptr), every tag in turn, numeric contents symbolic: the
+    reader must end in an exception derived from std::exception (or accept), never in std::terminate / a crash"""
+    from checks import c18
+    ir = build.build_ir(['h_params.cpp'], extra_flags=['-fno-pic'])
+    nat = build.build_native(['h_params.cpp'])
+    native = api.Native(nat)
+    shapes = [(1, [1])] if quick else [(1, [1]), (2, [2, 1])]
+    jobs = []
+    for (nct, nfts) in shapes:
+        sc0 = c18.Scenario('x', nct, nfts)
+        for (slot, kd) in sc0.used_slots():
+            jobs.append((nct, nfts, slot))
+    def work(i):
+        nct, nfts, slot = jobs[i]
+        sc = c18.Scenario('empty element %s in a %dx%r file' % (c18.slot_name(slot), nct, nfts), nct, nfts, omitted=-100 - slot)
+        z = SV.Z3Ctx()
+        used = sc.used_slots()
+        pre = [c18.fits_int(c18.IV[s_]) for (s_, kd) in used if kd == 'i']
+        sess = api.Session(ir, mode='real')
+        ctl, res = sess.explore('h_c18_read', list(c18.D), sc.control() + list(c18.IV), assumptions=pre, zctx=z, max_paths=300, branch_timeout_ms=10000)
+        out = {'name': sc.name, 'obs': [], 'bad': [], 'fail': [], 'paths': ctl.paths_done, 'functions': sorted(sess.functions_called), 'queries': z.queries, 'solver_s': z.solver_time, 'control': sc.control()}
+        if not ctl.exhausted: out['fail'].append(sc.name + ': path budget exhausted')
+        for (tr, pc, r) in res:
+            st = getattr(r, 'status', None)
+            if st == 'pathend': continue
+            key = 'P ' + sc.name + '/path ' + (''.join('T' if d.taken else 'F' for d in tr if not d.forced)[-20:] or '-')
+            if st == 'ok' and len(r.iout) >= 2 and r.iout[1] in (0, 1, 2):
+                out['obs'].append((key + '/ends in acceptance or an exception derived from std::exception', 'proved'))
+                continue
+            stw, m = SV.satisfiable(z, pc, 10000)
+            if stw == 'unsat': continue
+            what = 'std::terminate' if (st == 'memory' and r.error[0] == 'terminate') else ('%s %r' % (st, getattr(r, 'error', None)))[:200]
+            out['obs'].append((key + '/ends in acceptance or an exception derived from std::exception', 'violated'))
+            out['bad'].append({'what': what, 'where': r.error[2] if st == 'memory' else '', 'model': {k: (float(v) if k[0] == 'd' else int(v)) for k, v in (m or {}).items()}})
+        return out
+    outs = par.pmap(work, len(jobs), procs=14)
+    seen = set()
+    for (nct, nfts, slot), o in zip(jobs, outs):
+        chk.paths += o['paths']; chk.queries += o['queries']; chk.solver_s += o['solver_s']; chk.functions |= set(o['functions'])
+        for m_ in o['fail']: chk.fail_closed.append(m_)
+        for (name, status) in o['obs']: chk.ob(name, status, True, 0)
+        for b in o['bad'][:1]:
+            sc = c18.Scenario('x', nct, nfts, omitted=-100 - slot)
+            din, iin = c18.concrete_inputs(sc, b['model'])
+            iin[7] = 5
+            q = native.call('h_c18_read', din, iin)
+            crashed = q.get('status') in ('crash', 'timeout')
+            kind = c18.NUM_KIND[slot] if slot < 16 else (c18.CELL_KIND[(slot - 16) % 64] if (slot - 16) % 64 < 16 else c18.FACE_KIND[((slot - 16) % 64 - 16) % 8])
+            ident = ('empty', kind)
+            rep = {'file': 'parameter file with %d cell type(s), face types %r, element <%s></%s> empty' % (nct, nfts, c18.slot_name(slot), c18.slot_name(slot)), 'control': iin[:8], 'report': b['what'], 'where': b['where'],
+                   'native': {'status': q.get('status'), 'rc': q.get('rc')}, 'how': 'harness h_c18_read (/verif/harness/h_params.cpp), native build: writes the XML file and reads it with the real parameter_reader + tinyxml2'}
+            if crashed:
+                if ident not in seen:
+                    seen.add(ident)
+                    chk.violation('C17/terminate/empty XML element (%s-valued tag)' % {'d': 'number', 'i': 'integer', 's': 'text'}[kind],
+                                  'empty element <%s></%s>: %s in %s; native run killed by signal %s' % (c18.slot_name(slot), c18.slot_name(slot), b['what'], site_of(b['where']) if b['where'] else 'parameter_reader', -q.get('rc', 0) if q.get('rc') else '?'), rep)
+            else:
+                chk.fail_closed.append('empty element %s: %s reported symbolically, native run returned %r' % (c18.slot_name(slot), b['what'], q.get('i', [])[:2]))
+    native.close()
 
 def split_lists(iin):
     nc = iin[1]; lens = iin[2:2 + nc]; p = 2 + nc; out = []
